@@ -820,7 +820,9 @@ class InstanceWriteProvider(BaseProvider):
                 creation_class, new_instance, namespace=namespace,
                 strict=True)
 
-        except ValueError as exc:
+        except (ValueError, TypeError) as exc:
+            # ValueError: key properties are missing in the instance
+            # TypeError: key property values unusable as keybinding values
             raise CIMError(CIM_ERR_INVALID_PARAMETER, str(exc))
 
     def validate_instance_exists(self, path):
